@@ -668,7 +668,121 @@ def _lin_in(e: ast.expr, sym: str) -> Optional[Tuple[int, int]]:
     return None
 
 
+
+# ------------------------------------------------------------------ C14.h
+def _class_attr_values(ctx: Context, cls: ClassInfo, attr: str) -> List[ast.expr]:
+    """every expression assigned to self.<attr> in the class or its bases"""
+    out = []
+    for c in [cls] + ctx.prog.bases(cls):
+        for m in c.methods.values():
+            for n in walk_no_nested(m.node):
+                if isinstance(n, ast.Assign):
+                    for t in n.targets:
+                        if isinstance(t, ast.Attribute) and isinstance(t.value, ast.Name) and t.value.id == "self" and t.attr == attr:
+                            out.append(n.value)
+    return out
+
+
+def _occurring_only(ctx: Context, m: FuncInfo, e: ast.expr, at, _depth: int = 0) -> bool:
+    """does the sequence `e` enumerate only the labels that occur (np.unique of labels, a filtered
+    comprehension, or an attribute / local built from one)?"""
+    if _depth > 3:
+        return False
+    rs = ExprResolver(m.node)
+    r = rs.resolve(e, at) if at is not None else e
+    for x in ast.walk(r):
+        if isinstance(x, ast.Call) and (ctx.res.external_name(m, x) or "") == "numpy.unique":
+            return True
+        if isinstance(x, (ast.ListComp, ast.GeneratorExp)) and any(g.ifs for g in x.generators) and _depth == 0 and x is r:
+            return True
+    if isinstance(r, ast.Attribute) and isinstance(r.value, ast.Name) and r.value.id == "self" and m.cls is not None:
+        for v in _class_attr_values(ctx, m.cls, r.attr):
+            for x in ast.walk(v):
+                if isinstance(x, ast.Call) and "unique" in dotted(x.func).split(".")[-1:]:
+                    return True
+            if isinstance(v, (ast.ListComp, ast.GeneratorExp)) and any(g.ifs for g in v.generators):
+                return True
+    return False
+
+
+def _rank_typed(ctx: Context, classes, m: FuncInfo, fl, name: str, at, _depth: int = 0) -> Optional[str]:
+    """reason why the local `name` at `at` is a rank among occurring labels, or None (label space / unknown)"""
+    for d in fl.reaching(at, name):
+        if d.kind == "for":
+            it = d.value
+            its = ExprResolver(m.node).resolve(it, d.node)
+            f = dotted(its.func) if isinstance(its, ast.Call) else ""
+            if f == "enumerate" and its.args and d.path and d.path[0] == 0:
+                if _occurring_only(ctx, m, its.args[0], d.node):
+                    return f"position in `{unparse(it)[:50]}`, which lists only the clusters that occur"
+            elif f == "range" and its.args and isinstance(its.args[-1], ast.Call) and dotted(its.args[-1].func) == "len" and its.args[-1].args:
+                if _occurring_only(ctx, m, its.args[-1].args[0], d.node):
+                    return f"position below `{unparse(its.args[-1])[:50]}`, the number of clusters that occur"
+        elif d.kind == "param" and _depth < 2 and m.cls is not None:
+            # the argument handed in at the internal call sites of this method
+            pos = m.params.index(name) - (0 if m.is_staticmethod else 1) if name in m.params else None
+            for c in classes:
+                for mm in c.methods.values():
+                    for call in calls_in(mm.node):
+                        if isinstance(call.func, ast.Attribute) and call.func.attr == m.name and isinstance(call.func.value, ast.Name) and call.func.value.id == "self":
+                            a = call_arg(call, pos, name) if pos is not None else None
+                            if isinstance(a, ast.Name):
+                                fl2 = flow_of(mm.node)
+                                at2 = fl2.node_containing(call)
+                                if at2 is not None:
+                                    w = _rank_typed(ctx, classes, mm, fl2, a.id, at2, _depth + 1)
+                                    if w:
+                                        return w + f" (passed by {mm.short})"
+    return None
+
+
+def rule_h(ctx: Context, R: Reporter):
+    """Index-space typing inside the kernel: a per-mode array (an alias of a mode-statistics array, or
+    an attribute that is elsewhere subscripted by `assignments[...]`) is subscripted only by values of
+    the *label* space -- an assignment, a counter over range(number of modes) or over a per-mode array --
+    never by the rank of a label among the labels that occur (enumerate / range(len(...)) over
+    np.unique(assignments) or a filtered list)."""
+    from .c03 import _mode_attr_sources
+    from .c07 import kernel_base
+
+    base = kernel_base(ctx)
+    classes = [base] + ctx.prog.subclasses(base)
+    mode_attrs: Set[str] = set()
+    for c in classes:
+        mode_attrs |= {k.split(".", 1)[1] for k in _mode_attr_sources(ctx, c)}
+    subs = []
+    for c in classes:
+        for m in c.methods.values():
+            fl = flow_of(m.node)
+            rs = ExprResolver(m.node)
+            for s in walk_no_nested(m.node):
+                if isinstance(s, ast.Subscript) and isinstance(s.value, ast.Attribute) and isinstance(s.value.value, ast.Name) and s.value.value.id == "self" \
+                        and isinstance(s.slice, ast.expr) and not isinstance(s.slice, (ast.Slice, ast.Tuple)):
+                    at = fl.node_containing(s)
+                    sl = rs.resolve(s.slice, at) if at is not None else s.slice
+                    subs.append((c, m, fl, s, at, sl))
+                    if "assignments" in norm_text(sl) and s.value.attr != "assignments":
+                        mode_attrs.add(s.value.attr)
+    n_label = n_seen = 0
+    for (c, m, fl, s, at, sl) in subs:
+        if s.value.attr not in mode_attrs:
+            continue
+        n_seen += 1
+        if "assignments" in norm_text(sl):
+            n_label += 1
+            continue
+        if not isinstance(s.slice, ast.Name) or at is None:
+            continue
+        rank_why = _rank_typed(ctx, classes, m, fl, s.slice.id, at)
+        R.check("C14.h", "the kernel subscripts per-mode arrays in label space", rank_why is None, m, s,
+                msg=f"{m.short}: `{unparse(s)[:50]}` indexes a per-mode array with the {rank_why}; the proposal and the assignments use raw labels, so as soon as a cluster "
+                    f"with a smaller label holds no walker the density / step size of a different mode is applied to this cluster's walkers",
+                key=f"rank-index:{s.value.attr}")
+    R.floor("C14.h", "kernel subscripts of per-mode arrays", n_seen, 4)
+    R.analysed["C14.h:label-typed subscripts"] = n_label
+
 def run(ctx: Context, R: Reporter):
+    R.guard(rule_h, ctx, R)
     R.guard(rule_a, ctx, R)
     R.guard(rule_b, ctx, R)
     R.guard(rule_c, ctx, R)
@@ -694,9 +808,46 @@ def variants():
         Variant("c-global-unweighted-resample", "bad", replace_expr(md, "ModeStatistics.from_global", "np.random.choice(n_particles, size=n_resample, replace=True, p=weights)", "np.random.choice(n_particles, size=n_resample, replace=True)"), ["C14.c"], quick=True),
         Variant("d-weights-other-index", "bad", replace_stmt(md, "ModeStatistics.from_particles", "weights_cluster = weights[idx_cluster]", "weights_cluster = weights[:len(idx_cluster)]"), ["C14.d"], quick=True),
         Variant("e-cap-off-by-one", "bad", replace_expr(core, "SamplerCore.__init__", "config.n_max_clusters - 1", "config.n_max_clusters"), ["C14.e"], quick=True),
+        Variant("h-adapt-by-rank", "bad", edit("tempest/mcmc.py", "BaseMCMCRunner.run", _adapt_by_rank), ["C14.h"], quick=True),
+        Variant("h-benign-enumerate-modes", "benign", edit("tempest/mcmc.py", "BaseMCMCRunner.run", _adapt_enum_modes)),
         Variant("benign-rename-refit", "benign", alpha_rename(tr, "Trainer.run", "refit", "do_fit"), quick=True),
         Variant("benign-rename-labels", "benign", alpha_rename(tr, "Trainer.run", "labels", "lab")),
     ]
+
+
+def _adapt_loop(node):
+    for n in ast.walk(node):
+        if isinstance(n, ast.For) and "_adapt_sigma" in ast.unparse(n) and isinstance(n.target, ast.Name):
+            return n
+    return None
+
+
+def _adapt_by_rank(node, tree):
+    lp = _adapt_loop(node)
+    if lp is None:
+        return False
+    c = lp.target.id
+    new = ast.parse(f"for {c}, _lab in enumerate(np.unique(self.assignments)):\n    pass").body[0]
+
+    class T(ast.NodeTransformer):
+        def visit_Compare(self, x):
+            if ast.unparse(x) == f"self.assignments == {c}":
+                return ast.parse(f"self.assignments == _lab", mode="eval").body
+            return x
+
+    new.body = [T().visit(st) for st in lp.body]
+    lp.target, lp.iter, lp.body = new.target, new.iter, new.body
+    return True
+
+
+def _adapt_enum_modes(node, tree):
+    lp = _adapt_loop(node)
+    if lp is None:
+        return False
+    c = lp.target.id
+    new = ast.parse(f"for {c}, _s in enumerate(self.sigmas):\n    pass").body[0]
+    lp.target, lp.iter = new.target, new.iter
+    return True
 
 
 def _drop_dof_guard(node, tree):
